@@ -103,21 +103,41 @@ func (f *Fn) inlineCall(c *ssa.Call) (Expr, bool) {
 	return f.substitute(cf.Norm(ret.Results[0]), callee, c.Call.Args)
 }
 
-var summarised = map[*Fn]map[*ssa.Call]bool{}
+var summarised = map[*Fn]map[ssa.Value]bool{}
 
 // summariseCall proves simple bounds on the callee's result for all its returns and assumes them for this call.
 func (f *Fn) summariseCall(c *ssa.Call) {
-	callee := libCallee(c)
+	if libCallee(c) == nil {
+		return
+	}
+	f.summarise(c, 0, c)
+}
+
+// summariseExtract does the same for one integer component of a tuple result.
+func (f *Fn) summariseExtract(x *ssa.Extract) {
+	c, ok := x.Tuple.(*ssa.Call)
+	if !ok {
+		return
+	}
+	sc := c.Call.StaticCallee()
+	if sc == nil || len(sc.Blocks) == 0 || c.Call.IsInvoke() || !isIntType(x.Type()) {
+		return
+	}
+	f.summarise(c, x.Index, x)
+}
+
+func (f *Fn) summarise(c *ssa.Call, idx int, result ssa.Value) {
+	callee := c.Call.StaticCallee()
 	if callee == nil || f.Sub == nil || f.depth > 2 {
 		return
 	}
 	if summarised[f] == nil {
-		summarised[f] = map[*ssa.Call]bool{}
+		summarised[f] = map[ssa.Value]bool{}
 	}
-	if summarised[f][c] {
+	if summarised[f][result] {
 		return
 	}
-	summarised[f][c] = true
+	summarised[f][result] = true
 	cf := f.Sub(callee)
 	if cf == nil {
 		return
@@ -137,7 +157,7 @@ func (f *Fn) summariseCall(c *ssa.Call) {
 		why  string
 	}
 	cands := []cand{{true, Const(0), "result >= 0"}}
-	for _, p := range callee.Params {
+	for i, p := range callee.Params {
 		switch t := p.Type().Underlying().(type) {
 		case *types.Slice:
 			cands = append(cands, cand{false, cf.LenOf(p), "result <= len(" + p.Name() + ")"})
@@ -148,13 +168,24 @@ func (f *Fn) summariseCall(c *ssa.Call) {
 			if t.Info()&types.IsInteger != 0 {
 				cands = append(cands, cand{true, cf.Norm(p), "result >= " + p.Name()}, cand{false, cf.Norm(p), "result <= " + p.Name()})
 			}
+		case *types.Pointer:
+			// the length of the file behind a reader receiver
+			if i == 0 && callee.Signature.Recv() != nil && f.LenSuffix != "" {
+				if path, ok := fieldPath(p); ok {
+					cands = append(cands, cand{false, Atom(path + f.LenSuffix), "result <= " + path + f.LenSuffix})
+				}
+			}
 		}
 	}
-	me := Atom(f.atom(c))
+	me := Atom(f.atom(result))
 	for _, cd := range cands {
 		all := true
 		for _, r := range rets {
-			v := cf.Norm(r.Results[0])
+			if idx >= len(r.Results) {
+				all = false
+				break
+			}
+			v := cf.Norm(r.Results[idx])
 			facts := cf.FactsAt(r.Block())
 			var goal Cons
 			if cd.lo {
@@ -181,4 +212,9 @@ func (f *Fn) summariseCall(c *ssa.Call) {
 			f.Axioms = append(f.Axioms, Ge(b, me, why))
 		}
 	}
+}
+
+// Substitute rewrites an expression over the callee's parameters into this function's terms at a call.
+func (f *Fn) Substitute(e Expr, callee *ssa.Function, args []ssa.Value) (Expr, bool) {
+	return f.substitute(e, callee, args)
 }
